@@ -709,7 +709,11 @@ func (t *fnTrans) run() string {
 		params = append(binders, params...)
 		t.g.need[f] = t.need
 	}
-	return fmt.Sprintf("@[gen_def] def %s %s : %s :=\n%s\n", t.g.lname[f], strings.Join(params, " "), resT, body)
+	attr := "gen_def"
+	if len(cur.aux) > 0 {
+		attr = "gen_def, gen_local" // see Lemmas/GenAttr.lean
+	}
+	return fmt.Sprintf("@[%s] def %s %s : %s :=\n%s\n", attr, t.g.lname[f], strings.Join(params, " "), resT, body)
 }
 
 func ind(n int) string { return strings.Repeat("  ", n) }
